@@ -381,7 +381,12 @@ where
     B: Send + 'static,
 {
     fn push(&mut self, token: Token, mut connection: C, pool_ref: PoolRef<C, B>) {
-        self.connecting.remove(&token);
+        // Only a connection which can be shared completes the connection attempt that other
+        // checkouts are waiting for. A non-shareable connection serves a single waiter, so the
+        // attempt in progress (and its marker) must stay in place for everybody else.
+        if connection.can_share() {
+            self.connecting.remove(&token);
+        }
 
         if let Some(waiters) = self.waiting.get_mut(&token) {
             trace!(waiters=%waiters.len(), ?token, "walking waiters");
